@@ -8,6 +8,7 @@ _ol_reserved_name: TypeAlias = str
 OL_BREAK: _ol_reserved_name = "__ol_break_{}"
 OL_INTERRUPT: _ol_reserved_name = "__ol_interrupt_{}"
 OL_WRAPPED_ITER: _ol_reserved_name = "__ol_it_{}"
+OL_FOR_ITEM: _ol_reserved_name = "__ol_item_{}"
 OL_ITER_WRAPPER: _ol_reserved_name = "__ol_iter_wrapper"  # don't need format here
 OL_ASSIGN_TMP: _ol_reserved_name = "__ol_assign_{}"
 OL_AUGASSIGN_TMP: _ol_reserved_name = "__ol_augass_{}"
